@@ -8,11 +8,14 @@ import (
 	"fmt"
 	"os"
 	"sort"
+	"strconv"
 	"strings"
 	"sync"
 	"testing"
 
 	"github.com/BondMachineHQ/BondMachine/pkg/bmstack"
+	"github.com/BondMachineHQ/BondMachine/pkg/bondmachine"
+	"github.com/BondMachineHQ/BondMachine/pkg/procbuilder"
 	"pgregory.net/rapid"
 	"verifharness/pbt"
 	"verifharness/vlog"
@@ -24,6 +27,10 @@ type Config struct {
 	DataSize  int
 	Senders   int
 	Receivers int
+	// ViaSO: render the module through the shared-object wrapper (bondmachine Stack_instance / Queue_instance
+	// .Write_verilog on a machine whose processors carry r2t/t2r resp. r2q/q2r) instead of BmStack directly.
+	// DataSize is then the machine's register size and the port prefixes are p<n>stack_send / p<n>queue_recv ….
+	ViaSO bool `json:",omitempty"`
 }
 
 // Choice of one agent in one cycle: Act is interpreted by the agent's state
@@ -39,10 +46,78 @@ type Case struct {
 }
 
 func (c Config) String() string {
-	return fmt.Sprintf("%s/d%d/w%d/s%d/r%d", c.MemType, c.Depth, c.DataSize, c.Senders, c.Receivers)
+	via := ""
+	if c.ViaSO {
+		via = "/via-so"
+	}
+	return fmt.Sprintf("%s/d%d/w%d/s%d/r%d%s", c.MemType, c.Depth, c.DataSize, c.Senders, c.Receivers, via)
+}
+
+// portPrefix gives the port-name prefix of agent i (senders first, then receivers).
+func (c Config) portPrefix(i int) (string, bool) {
+	if !c.ViaSO {
+		if i < c.Senders {
+			return fmt.Sprintf("s%d", i), true
+		}
+		return fmt.Sprintf("r%d", i-c.Senders), false
+	}
+	kind := "stack"
+	if c.MemType == "FIFO" {
+		kind = "queue"
+	}
+	// processors 0..Senders-1 write, processors Senders..Senders+Receivers-1 read
+	if i < c.Senders {
+		return fmt.Sprintf("p%d%s_send", i, kind), true
+	}
+	return fmt.Sprintf("p%d%s_recv", i, kind), false
+}
+
+func renderViaSO(cfg Config) (string, error) {
+	bm := new(bondmachine.Bondmachine)
+	bm.Rsize = uint8(cfg.DataSize)
+	wr, rd, so := "r2t", "t2r", fmt.Sprintf("stack:%d", cfg.Depth)
+	if cfg.MemType == "FIFO" {
+		wr, rd, so = "r2q", "q2r", fmt.Sprintf("queue:%d", cfg.Depth)
+	}
+	mk := func(op string) *procbuilder.Machine {
+		m := new(procbuilder.Machine)
+		m.Arch.Rsize = uint8(cfg.DataSize)
+		m.Arch.Modes = []string{"ha"}
+		m.Arch.R, m.Arch.O = 1, 2
+		var ops []procbuilder.Opcode
+		for _, n := range []string{"nop", op} {
+			for _, o := range procbuilder.Allopcodes {
+				if o.Op_get_name() == n {
+					ops = append(ops, o)
+				}
+			}
+		}
+		sort.Sort(procbuilder.ByName(ops))
+		m.Arch.Op = ops
+		return m
+	}
+	bm.Domains = []*procbuilder.Machine{mk(wr), mk(rd)}
+	bm.Init()
+	for i := 0; i < cfg.Senders; i++ {
+		bm.Add_processor(0)
+	}
+	for i := 0; i < cfg.Receivers; i++ {
+		bm.Add_processor(1)
+	}
+	bm.Add_shared_objects([]string{so})
+	if len(bm.Shared_objects) != 1 {
+		return "", fmt.Errorf("shared object %q not instantiated", so)
+	}
+	for p := 0; p < cfg.Senders+cfg.Receivers; p++ {
+		bm.Connect_processor_shared_object([]string{strconv.Itoa(p), "0"})
+	}
+	return bm.Shared_objects[0].Write_verilog(bm, 0, "stk", "iverilog"), nil
 }
 
 func render(cfg Config) (string, error) {
+	if cfg.ViaSO {
+		return renderViaSO(cfg)
+	}
 	s := bmstack.CreateBasicStack()
 	s.ModuleName = "stk"
 	s.DataSize = cfg.DataSize
@@ -154,12 +229,7 @@ func (w *world) key() string {
 	return b.String()
 }
 
-func (w *world) name(i int) (string, bool) {
-	if i < w.cfg.Senders {
-		return fmt.Sprintf("s%d", i), true
-	}
-	return fmt.Sprintf("r%d", i-w.cfg.Senders), false
-}
+func (w *world) name(i int) (string, bool) { return w.cfg.portPrefix(i) }
 
 // step applies one cycle of agent choices and checks the refinement relation.
 func (w *world) step(ch []Choice) *pbt.Failure {
@@ -316,7 +386,7 @@ func (w *world) step(ch []Choice) *pbt.Failure {
 }
 
 func run(c Case) pbt.Outcome {
-	if c.Cfg.Depth < 1 || c.Cfg.DataSize < 1 || c.Cfg.DataSize > 63 || c.Cfg.Senders < 1 || c.Cfg.Receivers < 1 {
+	if c.Cfg.Depth < 1 || c.Cfg.DataSize < 1 || c.Cfg.DataSize > 64 || c.Cfg.Senders < 1 || c.Cfg.Receivers < 1 {
 		return pbt.Outcome{Excluded: "invalid-config"}
 	}
 	w, err := newWorld(c.Cfg)
@@ -330,6 +400,9 @@ func run(c Case) pbt.Outcome {
 		}
 	}
 	labels := []string{c.Cfg.MemType, fmt.Sprintf("depth=%d", c.Cfg.Depth), fmt.Sprintf("agents=%d+%d", c.Cfg.Senders, c.Cfg.Receivers)}
+	if c.Cfg.ViaSO {
+		labels = append(labels, "via-shared-object-wrapper")
+	}
 	wrapped := w.wrapW > c.Cfg.Depth
 	if wrapped {
 		labels = append(labels, "pointer-wrapped")
@@ -351,6 +424,10 @@ func genCase(maxDepth int) func(t *rapid.T) Case {
 		c.Cfg.DataSize = rapid.IntRange(1, 8).Draw(t, "dsize")
 		c.Cfg.Senders = rapid.IntRange(1, 3).Draw(t, "senders")
 		c.Cfg.Receivers = rapid.IntRange(1, 3).Draw(t, "receivers")
+		if rapid.IntRange(0, 3).Draw(t, "viaso") == 0 {
+			c.Cfg.ViaSO = true
+			c.Cfg.DataSize = rapid.SampledFrom([]int{8, 16, 32}).Draw(t, "rsize")
+		}
 		n := rapid.IntRange(10, 200).Draw(t, "cycles")
 		// bias knobs so that full and empty are both reached: how eager writers and readers are
 		pw := rapid.IntRange(1, 9).Draw(t, "pwrite")
@@ -367,7 +444,7 @@ func genCase(maxDepth int) func(t *rapid.T) Case {
 					row[a].Act = 1
 				}
 				if a < c.Cfg.Senders {
-					row[a].Data = uint64(rapid.IntRange(0, 255).Draw(t, "data"))
+					row[a].Data = uint64(rapid.Uint32().Draw(t, "data"))
 				}
 			}
 			c.Cycles = append(c.Cycles, row)
@@ -490,7 +567,7 @@ func TestExhaustive(t *testing.T) {
 		for depth := 1; depth <= 2; depth++ {
 			for s := 1; s <= 2; s++ {
 				for r := 1; r <= 2; r++ {
-					cfgs = append(cfgs, Config{mem, depth, 1, s, r})
+					cfgs = append(cfgs, Config{MemType: mem, Depth: depth, DataSize: 1, Senders: s, Receivers: r})
 				}
 			}
 		}
@@ -499,7 +576,7 @@ func TestExhaustive(t *testing.T) {
 	if tier == "thorough" {
 		maxStates = 1500000
 		for _, mem := range []string{"LIFO", "FIFO"} {
-			cfgs = append(cfgs, Config{mem, 3, 1, 2, 2}, Config{mem, 3, 2, 1, 1}, Config{mem, 2, 2, 2, 1}, Config{mem, 4, 1, 1, 2}, Config{mem, 3, 1, 3, 3})
+			cfgs = append(cfgs, Config{MemType: mem, Depth: 3, DataSize: 1, Senders: 2, Receivers: 2}, Config{MemType: mem, Depth: 3, DataSize: 2, Senders: 1, Receivers: 1}, Config{MemType: mem, Depth: 2, DataSize: 2, Senders: 2, Receivers: 1}, Config{MemType: mem, Depth: 4, DataSize: 1, Senders: 1, Receivers: 2}, Config{MemType: mem, Depth: 3, DataSize: 1, Senders: 3, Receivers: 3})
 		}
 	}
 	var summary []string
